@@ -2,6 +2,7 @@ import GdcVerif.Model.JpegLsScan
 import GdcVerif.Model.JpegLsRun
 import GdcVerif.Lemmas.JpegLsT87Ctx
 import GdcVerif.Spec.T87
+import GdcVerif.Lemmas.JlsRunBound
 /-!
   The Golomb parameter loops (`Context.ComputeGolombParameter` = model `JpegLsScan.golombParam`,
   `RunModeContext.GetGolombCode` = model `JpegLsRun.getGolombCode`) compute T.87's `k`
@@ -99,4 +100,28 @@ theorem getGolombCode_eq (c : RunModeContext) (hrit : c.runInterruptionType = 0 
       have := h.2.1 32 (by omega)
       omega
   · intro j hj; exact h.2.1 j (by omega)
+
+theorem encodeRunInterruption_eq (t : Traits) (idx : Int) (c : RunModeContext) (e : Int)
+    (hidx : 0 ≤ idx ∧ idx ≤ 31)
+    (hrit : c.runInterruptionType = 0 ∨ c.runInterruptionType = 1)
+    (hA : c.A + c.N / 2 * c.runInterruptionType ≤ c.N * 2 ^ 32) :
+    ∃ (k : Nat) (j : Int),
+      T87.IsGolombK c.N (if c.runInterruptionType = 1 then c.A + c.N / 2 else c.A) k ∧
+      J? idx = .ok j ∧
+      encodeRunInterruption t idx c e =
+        .ok (Golomb.encodeWrites k (T87.riEMErrval (riSpec c) k e) (t.Limit - j - 1) t.Qbpp,
+             RunModeContext.UpdateVariables c e (T87.riEMErrval (riSpec c) k e) t.Reset) ∧
+      riSpec (RunModeContext.UpdateVariables c e (T87.riEMErrval (riSpec c) k e) t.Reset) =
+        T87.riUpdate (specOf t) (riSpec c) e (T87.riEMErrval (riSpec c) k e) := by
+  obtain ⟨k, hk, hK⟩ := getGolombCode_eq c hrit hA
+  obtain ⟨j, hj, _, _⟩ := J?_ok idx hidx.1 hidx.2
+  refine ⟨k, j, hK, hj, ?_, riUpdate_eq c e _ t.Reset (specOf t) rfl⟩
+  have hem : (if RunModeContext.ComputeMap c e k = true then 2 * Go.abs e - c.runInterruptionType - 1
+        else 2 * Go.abs e - c.runInterruptionType) = T87.riEMErrval (riSpec c) k e := by
+    unfold T87.riEMErrval
+    rw [riMap_eq]
+    generalize T87.riMap (riSpec c) (↑k) e = b
+    cases b <;> simp [Go.abs, riSpec]
+  unfold encodeRunInterruption
+  simp only [hk, hj, bind, Except.bind, hem]
 end JpegLsT87
